@@ -314,9 +314,9 @@ Definition run_pseudo (p : pv) (m : meth) (args : list arg) : res pv :=
         | VMap x, VMap y => bind (mm_merge x y) (fun e => Ok (PV (VMap e)))
         | _, _ => okV (calc op_add r v)
         end))
-  | M_observe, _ =>
+  | M_observe, AV (VMap other) :: keys =>
       match p with
-      | PV (VMap e) => bind (arg_strs args) (fun ks => okV (mm_observe e ks))
+      | PV (VMap e) => bind (arg_strs keys) (fun ks => okV (mm_observe e other ks))
       | _ => Unsup
       end
   | _, _ => Unsup
@@ -582,13 +582,16 @@ Definition spec_map (e : entries) (m : meth) (args : list arg) : res value :=
   | M_replace, [a] =>
       bind (arg_f1 a) (fun f => bind (f (VMap c)) (fun r =>
         match r with VMap rep => Ok (VMap (fm_replace c (fm_canon rep))) | _ => Err None end))
-  | M_observe, _ =>
-      bind (arg_strs args) (fun ks =>
+  | M_observe, AV (VMap other) :: keys =>
+      bind (arg_strs keys) (fun ks =>
+      bind (map_to_string c) (fun txt =>
+      bind (veq (VMap c) (VMap (fm_canon other))) (fun e1 =>
+      bind (veq (VMap (fm_canon other)) (VMap c)) (fun e2 =>
         Ok (VList [VInt (Z.of_nat (length c)); VInt (Z.of_nat (length c)); VList (mm_list c);
                    VList (map (fun k => VList [VBool (match fm_get k c with Some _ => true | None => false end);
                                                match fm_get k c with Some x => x | None => VInt (-1) end;
                                                match fm_get k c with Some _ => VInt (-1) | None => VInt (Z.of_nat (S (length c))) end]) ks);
-                   VStr []]))
+                   VStr txt; VList [VBool e1; VBool e2]])))))
   | _, _ => Unsup
   end.
 
@@ -681,12 +684,23 @@ Definition same_val (unordered : bool) (a b : value) : bool :=
 
 (* observer bundle: sizes and keyed answers exactly, the entry list up to order, the text not at all
    (iteration order is the representation's business, the finite-map model has none) *)
+(* {k:v, k:v} as the multiset of its k:v parts (keys and values of the run contain no ", ") *)
+Definition text_parts (s : str) : list str :=
+  match s with
+  | _ :: r => str_split (rev (tl (rev r))) [44; 32]%N
+  | [] => []
+  end.
+
 Definition same_bundle (a b : value) : bool :=
   match a, b with
-  | VList [s1; n1; VList l1; k1; _], VList [s2; n2; VList l2; k2; VStr _] =>
+  | VList [s1; n1; VList l1; k1; VStr t1; e1], VList [s2; n2; VList l2; k2; VStr t2; e2] =>
       val_eqb s1 s2 && val_eqb n1 n2 && check_perm val_eqb l1 l2 && val_eqb k1 k2
+      && check_perm str_eqb (text_parts t1) (text_parts t2) && val_eqb e1 e2
   | _, _ => false
   end.
+
+Definition ends_in_observe_b (steps : list (meth * list arg)) : bool :=
+  match rev steps with (M_observe, _) :: _ => true | _ => false end.
 
 (* id, source, steps, result unordered?, observation *)
 Definition c07_case := (N * src * list step * bool * obs)%type.
@@ -696,7 +710,7 @@ Definition c07_id (c : c07_case) : N := let '(id, _, _, _, _) := c in id.
 Definition c07_im (c : c07_case) : bool :=
   let '(_, s, steps, un, o) := c in
   match run_model s steps, o with
-  | Ok v, OOk w => same_val un v w
+  | Ok v, OOk w => if un && ends_in_observe_b steps then same_bundle v w else same_val un v w
   | Err _, OFail => true
   | Panic, OPanic => true
   | Unsup, _ | OOF, _ => true
@@ -743,6 +757,11 @@ Fixpoint groups_of (l : list value) : option (list (value * list value)) :=
 Definition keyb_of (f : dcb1) (x k : value) : bool :=
   match f x with Ok kx => val_eqb kx k | _ => false end.
 
+(* groupByEqual compares keys with the = of the language (1 = 1.0) *)
+Definition keyb_eq (f : dcb1) (x k : value) : bool :=
+  match f x with Ok kx => match veq kx k with Ok true => true | _ => false end | _ => false end.
+Definition veq_b (a b : value) : bool := match veq a b with Ok true => true | _ => false end.
+
 Definition relational_ok (inp : list value) (last : step) (out : value) : bool :=
   match last, out with
   | (M_order, [a]), VList o =>
@@ -753,7 +772,7 @@ Definition relational_ok (inp : list value) (last : step) (out : value) : bool :
       match arg_f2 a with Ok f => check_order val_eqb (leb_less f) inp o | _ => true end
   | (M_groupByEqual, [a]), VList o =>
       match arg_f1 a, groups_of o with
-      | Ok f, Some gs => check_groups val_eqb val_eqb (keyb_of f) inp gs
+      | Ok f, Some gs => check_groups val_eqb veq_b (keyb_eq f) inp gs
       | Ok _, None => false
       | _, _ => true
       end
